@@ -335,6 +335,8 @@ class Forward:
             else:
                 v = self.ev(s.value)
                 cond_form = self.cmp(s.value) if isinstance(s.value, (ast.Compare, ast.BoolOp)) or (isinstance(s.value, ast.UnaryOp) and isinstance(s.value.op, ast.Not)) else None
+                if cond_form is None and isinstance(s.value, ast.Name) and s.value.id in self.st.bools:
+                    cond_form = self.st.bools[s.value.id]         # a copy of a boolean temporary
                 self._invalidate_calls(s.value)
                 for t in s.targets:
                     self._store(t, v)
